@@ -23,8 +23,11 @@ SRC = {
     "eu_32633_offlattice": ("epsg:32633", (430007.0, 5540011.0), 30.0, (50, 40), 0),
     "au_4326_nonsquare": ("epsg:4326", (145.0, -25.0), (0.002, 0.001), (40, 50), 0),
     "eu_32633_nonsquare": ("epsg:32633", (430000.0, 5540000.0), (30.0, 60.0), (50, 40), 0),
+    "eu_32633_nearline": ("epsg:32633", (429950.0, 5539950.0), 10.0, (50, 40), 0),
+    "eu_4326_nearline": ("epsg:4326", (13.9995, 49.9995), 0.0001, (60, 70), 0),
 }
 EXPLICIT = {"metre": 100.0, "degree": 0.001}
+COARSE = {"metre": 10000.0, "degree": 0.1}
 
 
 def _source(name):
@@ -79,10 +82,10 @@ def execute(c):
                 and not c["source"].startswith(("eu_4326_tile", "au_4326_tile", "equator", "au_4326_nonsquare", "eu_4326_rot180")):
             kw["round_resolution"] = True
         out_probe = None
-        if o["res"] == "explicit":
+        if o["res"] in ("explicit", "coarse"):
             # explicit resolution in the units of the target: decided from the resolved CRS
             out_probe = compute_output_geobox(src, crs_arg)
-            kw["resolution"] = EXPLICIT["degree" if out_probe.crs.geographic else "metre"]
+            kw["resolution"] = (EXPLICIT if o["res"] == "explicit" else COARSE)["degree" if out_probe.crs.geographic else "metre"]
         src_seen = src
         if how == 0:
             out = compute_output_geobox(src, crs_arg, **kw)
@@ -119,7 +122,7 @@ def execute(c):
             sr = src.resolution
             oo["res_ratio"] = [int(round(abs(A.a) / abs(sr.x) * 1e6)) if abs(A.a) / abs(sr.x) < 2000 else -1, int(round(abs(A.e) / abs(sr.y) * 1e6)) if abs(A.e) / abs(sr.y) < 2000 else -1]
             oo["square"] = bool(abs(abs(A.a) - abs(A.e)) <= 1e-9 * abs(A.a))
-            if o["res"] == "explicit":
+            if o["res"] in ("explicit", "coarse") and o["shape"] == "none":
                 oo["explicit_res_ok"] = bool(abs(abs(A.a) - kw["resolution"]) <= 1e-12 and abs(abs(A.e) - kw["resolution"]) <= 1e-12)
             # environment table: source boundary pixel corners + interior sample -> output pixel coordinates (fresh pyproj)
             h, w = src.shape
@@ -179,7 +182,8 @@ def run(ctx):
     cases.sort(key=lambda c: json.dumps(c, sort_keys=True))
     total = len(cases)
     pts = [c for c in cases if c["source"] == "point"]
-    cases = ctx.subsample([c for c in cases if c["source"] != "point"], 1200 if ctx.quick() else 10 ** 6) + pts
+    rest = [c for c in cases if c["source"] != "point"]
+    cases = (ctx.subsample_by(rest, lambda c: (c["source"], c["opts"]["res"], c["opts"]["shape"]), 22) if ctx.quick() else rest) + pts
     events = ctx.pmap(execute, cases)
     verdicts = _validate(ctx, events)
     for ev, v in zip(events, verdicts):
